@@ -1,6 +1,7 @@
 -- Root of the library: every model, spec and property module.
 import Corerad.Basic
 import Corerad.Props.C05
+import Corerad.Props.C12
 import Corerad.Props.C13
 import Corerad.Props.C14
 import Corerad.Props.C15
